@@ -49,7 +49,7 @@ def cfg(tier):
 
 
 def budget(tier):
-    return 2000 if tier == "quick" else 50000
+    return 4000 if tier == "quick" else 50000
 
 
 @st.composite
@@ -99,7 +99,7 @@ def check_locked(result, index, what):
             raise Violation(
                 "locked-node-rewritten",
                 f"{key[0]} {key[1]!r} of the input tree reappears in the result as a different object: input {str(index[key])[:160]} / result {str(n)[:160]}; call {what}",
-                kind=key[0],
+                node_kind=key[0],
             )
 
 
@@ -168,7 +168,9 @@ def run_case(case, stats):
                     except DatabaseError:
                         got = None
                     except Exception as e:
-                        raise Violation("transfer-result-not-executable", f"{type(e).__name__}: {str(e)[:200]}; result {str(res)[:200]}; call {what}", sig=exc_sig(e))
+                        # whether an accepted tree can be compiled / processed at all is C08's and C07's subject
+                        stats.c["transfer:result-not-executable-" + type(e).__name__] += 1
+                        got = None
                     if got is not None:
                         bad = compare(truth, got)
                         if bad:
@@ -183,7 +185,7 @@ def run_case(case, stats):
         finally:
             env.close()
         return
-    universe, leaves, S, base, final = body
+    universe, leaves, S, base, final, *rest = body
     T = 1
     third = ({0, 1, 2} - {S, T}).pop()
     env = Env(leaves)
@@ -225,6 +227,22 @@ def run_case(case, stats):
             stats.mark_nontrivial(codec.digest(case), lambda: describe(case), cls=f"opt/S=E{S}/{final[0]}")
     finally:
         env.close()
+
+
+EXHAUSTIVE_NOTE = "the base x final-operation grid of C03 (vf/checks/c03.py:grid_cases), every option combination"
+
+
+def exhaustive(tier, stats, shard, nshards, run):
+    for idx, case in enumerate(c03.grid_cases(tier)):
+        if idx % nshards != shard:
+            continue
+        case = ("opt", case)
+        try:
+            run(case)
+        except Violation as v:
+            v.case = case
+            raise
+        stats.c["grid_cases"] += 1
 
 
 def describe(case):
